@@ -79,6 +79,19 @@ pub struct Cfg {
     /// record cleartext payloads (hex) in the trace
     pub payloads: bool,
     pub events: bool,
+    /// datagrams that belong to no connection, sent from a third (attacker) address to the server:
+    /// `unknown-cid-short` | `unknown-version-long` | `vn-packet` | `tiny` | `mix` ("" = none)
+    pub inject_kind: String,
+    /// per-mille rate of such injections per network round with traffic
+    pub inject_kind_pm: u64,
+    /// size of the injected datagram (0 = cycle through the boundary sizes)
+    pub inject_size: usize,
+    /// strays per network round (each delivered one microsecond after the previous one)
+    pub inject_burst: u64,
+    /// how many leading bytes of each datagram are recorded in `wire` lines
+    pub wire_head: usize,
+    /// enable stateless resets on the server (keyed token generator); off = s2n-quic default
+    pub sreset: bool,
 }
 
 impl Default for Cfg {
@@ -117,6 +130,12 @@ impl Default for Cfg {
             attack_at: 0,
             payloads: true,
             events: true,
+            inject_kind: String::new(),
+            inject_kind_pm: 0,
+            inject_size: 0,
+            inject_burst: 1,
+            wire_head: 48,
+            sreset: false,
         }
     }
 }
@@ -198,6 +217,12 @@ impl Cfg {
                 "attack_at" => c.attack_at = n()?,
                 "payloads" => c.payloads = n()? != 0,
                 "events" => c.events = n()? != 0,
+                "inject_kind" => c.inject_kind = v.to_string(),
+                "inject_kind_pm" => c.inject_kind_pm = n()?,
+                "inject_size" => c.inject_size = n()? as usize,
+                "inject_burst" => c.inject_burst = n()?,
+                "wire_head" => c.wire_head = n()? as usize,
+                "sreset" => c.sreset = n()? != 0,
                 _ => return Err(format!("unknown key {k}")),
             }
         }
